@@ -23,6 +23,13 @@ def configs(tier):
     for n in ((2, 5) if tier == "quick" else (2, 3, 5, 8)):
         for delay in (False, True):
             out.append(dict(to_cycles=n, allow_delay=delay, domain="usb", given_output=True))
+    # non-default domain on a clock of its own: the helper is built for domain "other" while an unrelated "sync" domain
+    # is present in the wrapper and ticks at a different rate.  clk = [divider of "other", divider of "sync"] (one of
+    # them 1).  One action = one tick of the helper's own domain; outputs are judged in those ticks.
+    multi = [(3, True, [2, 1])] if tier == "quick" else \
+            [(3, True, [2, 1]), (3, False, [2, 1]), (2, True, [1, 3]), (4, True, [1, 2]), (4, False, [1, 3]), (5, True, [3, 1]), (1, True, [2, 1])]
+    for n, delay, clk in multi:
+        out.append(dict(to_cycles=n, allow_delay=delay, domain="other", given_output=False, clk=clk))
     return out
 
 
@@ -46,6 +53,12 @@ def _build(cfg):
                 # to_cycles=1 is purely combinational; the engine's amaranth.sim replay needs a clock domain to
                 # exist, so give the wrapper one unrelated register (it feeds nothing).
                 m.d[cfg["domain"]] += Signal(name="harness_clock_anchor").eq(1)
+            if cfg.get("clk"):
+                # the unrelated second domain: present, ticking at its own rate, feeding nothing
+                m.d.sync += Signal(name="harness_sync_anchor").eq(1)
+                # (and make sure the helper's own domain exists in the netlist whatever the helper does with it:
+                # the engine's amaranth.sim replay ignores the dividers when only one domain is left)
+                m.d.other += Signal(name="harness_other_anchor").eq(1)
             return m
 
     # the helper creates its output signal at elaboration time when none is given: elaborate the wrapper once by hand
@@ -67,22 +80,47 @@ class StretchSpec(Spec):
 
     def build(self):
         m, strobe, output = _build(self.cfg)
-        return Design(m, dict(strobe=strobe), dict(output=output))
+        clk = self.cfg.get("clk")
+        if not clk:
+            return Design(m, dict(strobe=strobe), dict(output=output))
+        # the helper's own domain ticks on the LAST engine step of each of its periods, so that all steps of one
+        # period see the same register state and the same inputs
+        return Design(m, dict(strobe=strobe), dict(output=output),
+                      clocks={"other": (clk[0], clk[0] - 1), "sync": (clk[1], 0)})
 
     def env0(self):
-        # (strobe history, most recent last, N samples: cycles t-N .. t-1) , admitted alignments
-        return ((0,) * self.n, (0, 1) if self.cfg["allow_delay"] else (0,))
+        # (strobe history, most recent last, N samples: cycles t-N .. t-1) , admitted alignments, engine step index mod lcm
+        return ((0,) * self.n, (0, 1) if self.cfg["allow_delay"] else (0,), 0)
+
+    def _own_tick(self, cur, phase, s):
+        """advance the helper's own domain by one tick; returns (observation, new phase)"""
+        clk = self.cfg.get("clk")
+        if not clk:
+            return cur.step(strobe=s), 0
+        m = cur.model
+        v = m.vec(strobe=s)
+        lcm = max(clk)
+        first = None
+        for _ in range(clk[0]):
+            o = cur.step_vec(v, m._masks[phase])
+            phase = (phase + 1) % lcm
+            if first is None: first = o
+            elif o != first:
+                raise Violation("stretch-output-changed-between-own-clock-ticks",
+                                dict(to_cycles=self.n, allow_delay=self.cfg["allow_delay"], clk=clk, before=first.output, after=o.output))
+        return first, phase
 
     def actions(self, env):
         return (0, 1)
 
     def assumptions(self):
         return ["the register chain starts empty (no strobe before reset release)",
+                "multi-clock configurations: the strobe input changes only at ticks of the helper's own domain; the second domain is phase-locked with an integer divider",
                 "allow_delay=True permits but does not require the one-cycle shift: either alignment is accepted, but the same one for the whole run"]
 
     def apply(self, cur, env, s):
-        hist, cands = env
-        o = cur.step(strobe=s)
+        hist, cands, phase = env
+        o, phase = self._own_tick(cur, phase, s)
         n = self.n
         full = hist + (s,)                       # samples of cycles t-N .. t
         exp = {0: int(any(full[1:])),            # window t-N+1 .. t
@@ -98,7 +136,7 @@ class StretchSpec(Spec):
         if n > 1 and o.output and not s and full[1] and not any(full[2:]): self.cover["last_cycle_of_window"] += 1
         if o.output and not s: self.cover["held_without_strobe"] += 1
         self.outcomes.add((o.output, left))
-        return (full[1:], left)
+        return (full[1:], left, phase)
 
     def goals(self):
         g = ["output_high", "output_low"]
